@@ -141,7 +141,8 @@ class C17(object):
                          'reparse.fallback_after_failed_search',
                          'reparse.second_block_is_empty',
                          'history.same_text_and_options_solved_with_other_callables_under_the_same_names',
-                         'history.small_models_created_and_solved_between_two_construction_stages')
+                         'history.small_models_created_and_solved_between_two_construction_stages',
+                         'history.other_solver_registered_functions_named_like_math_functions')
 
     def n_cases(self, tier):
         return 32 if tier == 'quick' else 1200
@@ -226,6 +227,15 @@ class C17(object):
             # target's own variables), and the target itself is re-solved
             hist.insert(rng.randint(0, len(hist)), {'op': 'other_solver_excludes', 'name': 'SIM', 'maxtime': 1})
             settings['resolves'] = max(1, settings['resolves'])
+        if idx % 8 == 2:
+            # the target relies on names resolving the way a fresh process resolves them: log / sqrt / exp are the math functions, and
+            # `half` is defined nowhere (the block must fail the same way) - earlier in the process other solvers registered
+            # functions under exactly these names and were solved
+            uses_unregistered = (idx // 8) % 2 == 1
+            target = {'type': 'block', 'reduction': rng.random() < 0.5, 'steady': (idx // 16) % 2 == 1,
+                      'text': ('x = 0.5*x + log(g) + sqrt(4.0)\ny = exp(0.0)*x%s\nz0 = log(10.0)\nz0(0) = log(100.0)\nMaxTime = %d\nexogenous\ng = [2.0, 3.0, 4.0, 5.0, 6.0, 7.0, 8.0]'
+                               % (' + half(x)' if uses_unregistered else '', rng.randint(2, 5)))}
+            hist = [{'op': 'rival_math_names', 'name': 'SIM', 'maxtime': 1}] + hist[:3]
         if idx % 8 == 5 and (idx // 8) % 2 == 1:
             if (idx // 16) % 2 == 0:
                 # a model put together in two stages, with other (smaller and larger) models created and solved in between
@@ -312,6 +322,22 @@ class C17(object):
                             pass
                     rival()              # before the target is configured ...
                     hooks.append(rival)  # ... and again between its configuration and its solve
+                elif op['op'] == 'rival_math_names':
+                    def rival_math():
+                        r = EquationSolver('q = 0.5*q + log(g) + sqrt(half(g))\nq(0) = exp(1.0)\nMaxTime = 2\nexogenous\ng = [exp(1.0)]*4')
+                        r.AddFunction('log', lambda v: -7.0)
+                        r.AddFunction('sqrt', lambda v: 100.0)
+                        r.AddFunction('exp', lambda v: 3.0)
+                        r.AddFunction('half', lambda v: 0.5 * v)
+                        r.ParameterSolveInitialSteadyState = True
+                        r.ParameterInitialSteadyStateMaxTime = 40
+                        try:
+                            r.SolveEquation()
+                        except ValueError:
+                            pass
+                    rival_math()
+                    hooks.append(rival_math)
+                    rec.count('history.other_solver_registered_functions_named_like_math_functions')
                 elif op['op'] == 'small_models_between_stages':
                     calls = [0]
 
